@@ -256,6 +256,15 @@ func (g *pgen) strLit() string {
 	return q + w + q
 }
 
+// the destination prefix of a context variable: `ctx.` or its alias `context.`
+func (g *pgen) ctxDot() string {
+	if g.r.chance(1, 5) {
+		g.count("context variable written as context.<name>")
+		return "context."
+	}
+	return "ctx."
+}
+
 func (g *pgen) intLit() string { return strconv.Itoa(g.r.intn(300)) }
 
 // a source expression with its kind
@@ -544,21 +553,21 @@ func (g *pgen) ctxAssign() {
 	name := g.id("cv")
 	switch r.intn(5) {
 	case 0:
-		g.emit("ctx." + name + " = " + g.strLit())
+		g.emit(g.ctxDot() + name + " = " + g.strLit())
 		g.ctxVars = append(g.ctxVars, ctxVar{name, "str", ""})
 	case 1:
-		g.emit("ctx." + name + " = " + g.intLit())
+		g.emit(g.ctxDot() + name + " = " + g.intLit())
 		g.ctxVars = append(g.ctxVars, ctxVar{name, "str", ""})
 	case 2:
 		if p, ok := g.docPath("str"); ok {
-			g.emit("ctx." + name + " = " + p)
+			g.emit(g.ctxDot() + name + " = " + p)
 			g.ctxVars = append(g.ctxVars, ctxVar{name, "str", ""})
 		}
 	case 3:
-		g.emit("ctx." + name + " = jso.o")
+		g.emit(g.ctxDot() + name + " = jso.o")
 		g.ctxVars = append(g.ctxVars, ctxVar{name, "node", "o"})
 	default:
-		g.emit("ctx." + name + " = " + pick(r, []string{"st.Name", "st.Id", "st.Status"}) + pick(r, []string{"", " as static", ".(static)"}))
+		g.emit(g.ctxDot() + name + " = " + pick(r, []string{"st.Name", "st.Id", "st.Status"}) + pick(r, []string{"", " as static", ".(static)"}))
 		g.ctxVars = append(g.ctxVars, ctxVar{name, "str", ""})
 	}
 	g.count("ctx variable")
@@ -833,6 +842,15 @@ func (g *pgen) cloopHeader(v string) string {
 		c = h{strconv.Itoa(a), "!=", strconv.Itoa(a + n), "++"}
 	default:
 		c = h{strconv.Itoa(a + n), "!=", strconv.Itoa(a), "--"}
+	}
+	if r.chance(1, 8) {
+		// Go octal literals: 010 is eight
+		oct := func(x string) string {
+			v, _ := strconv.Atoi(x)
+			return "0" + strconv.FormatInt(int64(v+8), 8)
+		}
+		c.init, c.lim = oct(c.init), oct(c.lim)
+		g.count("counter loop with octal literal bounds")
 	}
 	// limits from the document or a static variable now and then
 	if r.chance(1, 4) && c.step == "++" && (c.op == "<" || c.op == "<=") {
